@@ -46,6 +46,8 @@ FSTR = [  # self-documenting f-string expressions ('{x = }' keeps its source tex
     "print(f'Größe: {w * h = }')\nt = f'{café = }'",
     "s = 'naïve'; t = f'{(a , b) = }' f'{ x = !r:>{ w }}'",
     "u = f'''é {\n a = } ü { b  =  }''' 'ö'",
+    # every tail a self-documenting field can have: conversion without format spec, format spec without conversion, both, neither
+    "v = f'{a = !r} {a + b = !s}'\nw = f'{ a=!a } { c = :>5} {d=}'\nx = f'{ e  =  !r:{ n }}'",
 ]
 MBML = [  # multi-line trivia whose first line has multi-byte text before the gap and whose last line is ASCII (and the reverse)
     "names = [\"Zoë\",\n         other]\nf('é',\n  b)",
